@@ -1,4 +1,5 @@
 import NeverModel.Model.Vm
+import NeverModel.Model.VerifyRun
 import Driver.Util
 open Never Never.Vm Never.Num Drv
 namespace VmDrv
@@ -132,6 +133,15 @@ partial def main (args : List String) : IO UInt32 := do
     let maxSteps := 200000000
     let mut traceActive := th.isSome
     let mut lastFe := 0
+    -- the side conditions of C07's soundness theorem (Props/C07 `verify_sound_partial`: `StepOk`), checked on every replayed step of
+    -- a module that verifies: live frame records followed beside the machine (`ghostNext`), `stepOkB` per step
+    -- (only when NMDRV_STEPOK is set: the check walks all live records on every step, checks/c07.py asks for it)
+    let sideOn := (← IO.getEnv "NMDRV_STEPOK").isSome
+    let hmOpt : Option Never.Ver.HMap := if !sideOn then none else match Never.Ver.verifyH md0 with | .ok (_, hm) => some hm | .error _ => none
+    let mut recs : List Never.Ver.Rec := []
+    let mut sideChecked : Nat := 0
+    let mut sideFails : Nat := 0
+    let mut sideFirst : Option String := none
     while execsLeft > 0 ∧ stop.isNone ∧ diverged.isNone do
       let sp0 := vm.sp
       let wasInit := vm.initialized
@@ -155,7 +165,18 @@ partial def main (args : List String) : IO UInt32 := do
         if diverged.isNone then
           let orc := oracleOf next
           match (step md orc).run vm with
-          | .ok (_, vm') => vm := vm'
+          | .ok (_, vm') =>
+            match hmOpt with
+            | some hm =>
+              sideChecked := sideChecked + 1
+              if !Never.Ver.stepOkB md hm vm vm' recs then
+                sideFails := sideFails + 1
+                if sideFirst.isNone then
+                  let opn := match md.code[vm.ip]? with | some i => s!"{repr i.op}" | none => "?"
+                  sideFirst := some s!"step={steps} ip={vm.ip} op={opn} sp={vm.sp} fp={vm.fp} pp={vm.pp} live_records={recs.length}"
+              recs := Never.Ver.ghostNext md vm recs
+            | none => pure ()
+            vm := vm'
           | .error (.crash why) => stop := some s!"crash {why}"
           | .error (.exit msg o) => stop := some s!"exit {msg}"; vm := { vm with out := vm.out ++ o.toArray }
           steps := steps + 1
@@ -173,6 +194,9 @@ partial def main (args : List String) : IO UInt32 := do
         results := results ++ [s!"exec ret={if vm.running == 0 then 0 else 1} sp_before={sp0} sp_after={vm.sp} running={vm.running} exc={vm.exception} result={r}"]
         if vm.running != 0 ∧ !callsMode then execsLeft := 0 else execsLeft := execsLeft - 1
     IO.println s!"steps {steps}"
+    match hmOpt with
+    | some _ => IO.println s!"stepok checked={sideChecked} fails={sideFails} live_at_end={recs.length}{match sideFirst with | some f => " first: " ++ f | none => ""}"
+    | none => if sideOn then IO.println "stepok module-not-verified"
     match diverged with | some d => IO.println s!"DIVERGE {d}" | none => pure ()
     match stop with | some s => IO.println s!"stop {s}" | none => pure ()
     if diverged.isNone ∧ stop.isNone ∧ traceActive ∧ cur.isSome then IO.println s!"DIVERGE trace has more lines than the model executed: {cur.getD ""}"
